@@ -26,7 +26,8 @@ from . import c03, c08
 ADV = [0, 0.0, -0.0, 1, -1, 2, 0.5, -8, 1e308, -1e308, 5e-324, 1e16, 10 ** 400, -(10 ** 400), float('inf'), float('nan'),
        1000, -0.5, 3]
 ADV_OTHER = [None, True, 'x', '', datetime.datetime(1, 1, 1), datetime.datetime(9999, 12, 31, 23, 59, 59, 999000),
-             datetime.datetime(2024, 3, 10, 2, 30), [], [float('inf')], {'a': float('nan')}, [1, [2, [3]]]]
+             datetime.datetime(2024, 3, 10, 2, 30), datetime.datetime(2024, 3, 10, 2, 30, tzinfo=datetime.timezone(datetime.timedelta(hours=5, minutes=30))),
+             datetime.date(2024, 3, 10), [], [float('inf')], {'a': float('nan')}, [1, [2, [3]]]]
 OPS = ['+', '-', '*', '/', '%', '**', '==', '<', '>=']          # comparisons too: arbitrary-precision ints against floats
 
 LIB_REPS = [None, True, 0, 1, -1, 2.5, 1000003, '', 'abc', '[', '{"a":1}', datetime.datetime(2024, 2, 29, 12, 0, 0),
